@@ -522,7 +522,8 @@ def patched(sched: Scheduler, backend_factory: Callable[[str], Any], shared_rloc
         recorded as an operation `LockPrimitive:<name>` that no projection knows -- a correspondence failure, never a silent
         pass-through.  With `sched.fine_locks`, a non-blocking exclusive flock attempt is a scheduling point of its own,
         BETWEEN the open of the lock file and the flock (flock locks the inode the open returned, not the path: what happens
-        to the path in between matters)."""
+        to the path in between matters); with `sched.fine_locks == "all"` EVERY primitive on the lock file is one (LockOpen,
+        LockFlock, LockUnlock, LockClose: e.g. the window inside release() between the unlock and the close)."""
 
         def __init__(self, real: Any):
             self._real = real
@@ -545,6 +546,8 @@ def patched(sched: Scheduler, backend_factory: Callable[[str], Any], shared_rloc
             if getattr(sched, "fine_locks", False) and sched.me() is not None and attempt:
                 sched.yield_point("LockFlock", "dlock")
             prim = "trylock" if attempt else ("unlock" if flags & r.LOCK_UN else "flock:%d" % flags)
+            if prim == "unlock" and getattr(sched, "fine_locks", False) == "all" and sched.me() is not None:
+                sched.yield_point("LockUnlock", "dlock")
             try:
                 out = r.flock(fd, flags)
             except OSError:
@@ -565,6 +568,8 @@ def patched(sched: Scheduler, backend_factory: Callable[[str], Any], shared_rloc
             return getattr(self._real, name)
 
         def open(self, path: Any, flags: int, *a: Any, **kw: Any) -> Any:
+            if getattr(sched, "fine_locks", False) == "all" and sched.me() is not None:
+                sched.yield_point("LockOpen", "dlock")
             try:
                 fd = self._real.open(path, flags, *a, **kw)
             except OSError:
@@ -574,6 +579,8 @@ def patched(sched: Scheduler, backend_factory: Callable[[str], Any], shared_rloc
             return fd
 
         def close(self, fd: Any) -> Any:
+            if getattr(sched, "fine_locks", False) == "all" and sched.me() is not None:
+                sched.yield_point("LockClose", "dlock")
             _locklog("close", fd, True)
             return self._real.close(fd)
 
